@@ -70,6 +70,7 @@ FixNames == {"StartAll", "StopAll",      \* C20-startall-stopall-lock-order: reg
              "moveTorrent",              \* C20-move-torrent-registry-locks: handleMoveTorrent / loadExistingTorrent take the locks
              "reserveID",                \* C14-reserve-torrent-id: add() reserves the id under the write lock, remove un-reserves
              "cleanLive",                \* C14-clean-database-live: CleanDatabase consults the registry first
+             "cleanReset",               \* C20-cleandatabase-unlocked-reset: the list of invalid ids is reset under the registry lock
              "compactLocks",             \* C14-compact-database: CompactDatabase reads registry, records and bitfields under locks
              "dhtDropOnStop"}            \* C19-drop-pending-dht-request-on-stop: stop() removes the pending DHT request
 
@@ -128,6 +129,7 @@ ProgV(op, fx) ==
       [] op = "Session.StartAll"       -> IF "StartAll" \in fx THEN F_AllFixed("startCommandC") ELSE F_AllAsIs("startCommandC")
       [] op = "Session.StopAll"        -> IF "StopAll" \in fx THEN F_AllFixed("stopCommandC") ELSE F_AllAsIs("stopCommandC")
       [] op = "Session.CleanDatabase"  -> (IF "cleanLive" \in fx THEN RLRU("mTorrents") ELSE <<>>) \o DBTX
+                                          \o (IF "cleanReset" \in fx THEN WLWU("mTorrents") ELSE <<>>)
       [] op = "Session.CompactDatabase" ->      \* as is: no lock at all (reads registry and loop-owned fields bare: data-race half)
              IF "compactLocks" \in fx
              THEN <<S("RL", "mTorrents"), E("RES", "Read"), E("RL", "mBitfield"), E("RU", "mBitfield"), S("RU", "mTorrents")>>
@@ -191,7 +193,7 @@ Relevant(op) ==
       [] op = "Session.StartAll" -> {"StartAll"}
       [] op = "Session.StopAll" -> {"StopAll"}
       [] op = "torrent.resolveAndAddPeer" -> {"resolveAndAddPeer"}
-      [] op = "Session.CleanDatabase" -> {"cleanLive"}
+      [] op = "Session.CleanDatabase" -> {"cleanLive", "cleanReset"}
       [] op = "Session.CompactDatabase" -> {"compactLocks"}
       [] op \in {"torrent.stop", "torrent.close"} -> {"dhtDropOnStop"}
       [] OTHER -> {}
